@@ -1,22 +1,23 @@
-"""Per-property configuration of ./check (see DESIGN.md section 4)."""
+"""Per-property configuration of ./check: one file checks/Cxx.py per property defining CHECK (and META for the manifest)."""
+import importlib.util, os, re
 
-def suite(name, pkg, quick, thorough, stdin=False, race=False, tiers=None, args=None, timeout=None):
+def suite(name, pkg, quick, thorough, stdin=False, race=False, tiers=None, args=None, timeout=None, exit_is_violation=False):
     s = {"name": name, "pkg": pkg, "bin": pkg.replace("/", "_") + ("_race" if race else ""),
          "n": {"quick": quick, "thorough": thorough}, "stdin": stdin, "race": race}
     if tiers: s["tiers"] = tiers
     if args: s["args"] = args
     if timeout: s["timeout"] = timeout
+    if exit_is_violation: s["exit_is_violation"] = True
     return s
 
-CHECKS = {}
-
-CHECKS["C03"] = {
-    "suites": [suite("allocate", "c03", 6000, 120000, stdin=True)],
-    "lean_sources": ["ClusterVerif/Model/C03.lean", "ClusterVerif/Spec/C03.lean", "ClusterVerif/Lemmas/C03.lean"],
-    "rule": "cases = (strategy, factor pair, 0-8 peers each in one of 5 metric states, current/exclusion/priority lists) "
-            "drawn from one splitmix64 stream per case index; non-trivial = positive factors or everywhere (-1,-1); distinct by case line",
-    "trusted_base": ["metrics.Store-backed monitor stands in for pubsubmon (LatestValid is the real code)",
-                     "verif_export.go wrappers (VerifNewCluster, VerifAllocate)"],
-    "assumptions": ["LatestMetrics returns at most one metric per peer (C09)",
-                    "a non-numeric metric makes a peer unusable for new allocations under the shipped strategies"],
-}
+CHECKS, META = {}, {}
+_d = os.path.join(os.path.dirname(os.path.abspath(__file__)), "checks")
+for _f in sorted(os.listdir(_d)):
+    if re.match(r"C\d\d\.py$", _f):
+        _spec = importlib.util.spec_from_file_location("checks_" + _f[:-3], os.path.join(_d, _f))
+        _m = importlib.util.module_from_spec(_spec)
+        _m.suite = suite
+        _spec.loader.exec_module(_m)
+        CHECKS[_f[:-3]] = _m.CHECK
+        if hasattr(_m, "META"):
+            META[_f[:-3]] = _m.META
